@@ -85,6 +85,10 @@ static pthread_mutex_t mm = PTHREAD_MUTEX_INITIALIZER;
 static pthread_barrier_t bar;
 static const char *scratch_prefix;
 
+static unsigned entry_index(const char *name) {
+  for (unsigned i = 0; i < NCONSULT; i++) if (!strcmp(CONSULT[i].name, name)) return i;
+  fprintf(stderr, "no consulting entry %s\n", name); abort();
+}
 static uint64_t one(hwloc_topology_t t, unsigned e, unsigned id, const char *scratch) {
   struct cctx cx = { id, 1, 0, scratch };
   CONSULT[e].fn(t, &cx);
@@ -154,11 +158,12 @@ static void *independent(void *arg) {
     if (!t) continue;
     modify(t, &p);
     hwloc_topology_refresh(t);
-    uint64_t d1 = one(t, 4 /* tree_walk */, 0, scratch);
-    if (!hwloc_topology_dup(&d, t)) { hwloc_topology_refresh(d); if (one(d, 4, 0, scratch) != d1) bad++; hwloc_topology_destroy(d); }
+    unsigned e_walk = entry_index("tree_walk"), e_sets = entry_index("set_getters");
+    uint64_t d1 = one(t, e_walk, 0, scratch);
+    if (!hwloc_topology_dup(&d, t)) { hwloc_topology_refresh(d); if (one(d, e_walk, 0, scratch) != d1) bad++; hwloc_topology_destroy(d); }
     if (!hwloc_topology_export_xmlbuffer(t, &buf, &len, 0)) {
       hwloc_topology_init(&t2); hwloc_topology_set_all_types_filter(t2, HWLOC_TYPE_FILTER_KEEP_ALL);
-      if (!hwloc_topology_set_xmlbuffer(t2, buf, len) && !hwloc_topology_load(t2)) { if (one(t2, 13 /* set_getters */, 0, scratch) != one(t, 13, 0, scratch)) bad++; }
+      if (!hwloc_topology_set_xmlbuffer(t2, buf, len) && !hwloc_topology_load(t2)) { if (one(t2, e_sets, 0, scratch) != one(t, e_sets, 0, scratch)) bad++; }
       hwloc_topology_destroy(t2);
       hwloc_free_xmlbuffer(t, buf);
     }
